@@ -34,7 +34,15 @@ ASSUMPTIONS = [
     "timeout (pingBudget = pings sent at 0.5 s, 1.5 s, ... before the timeout); afterwards it answers every ping",
     "fewer than 119 ResponsePending frames per request (MAX_N_PENDING, C04's subject); client timing as in UDSClient: timeout "
     "2 s, retry_wait 0.2 s * 2^i, pending loop gives up after 40 * 0.5 s, pings every 0.5 s with 0.5 s timeout; the scanner's "
-    "--sleep is 0",
+    "--sleep is 0; no cyclic tester-present worker runs during the scan (the client mutex between the worker and the requests "
+    "of the scan is C05's subject)",
+    "scans with a database (the real DBHandler on a sqlite file under /var/tmp, removed afterwards): the session_transition rows "
+    "of the scan run are read back from the file after the scan has disconnected; one scan into a fresh database and two or "
+    "three consecutive scans of the same target (other depth / skip / thorough / hooks / reset, sometimes an ECU whose graph has "
+    "changed in between) into the same file; the table model (Model/SessionDb.lean) has the session_transition rows and fresh "
+    "run ids only - address / run_meta / scan_result tables and the exchange log belong to C11; what "
+    "DBHandler.get_session_transition returns to a later ECU.set_session(use_db=True) when several runs stored different "
+    "sequences for one session (the first row of any run) is not judged",
     "slow session changes: a positive reply announced with ResponsePending arrives less than 20 s (PENDING_GIVEUP_MS, the 40 reads of "
     "0.5 s of the client's pending loop) after the last pending frame: transparent (scan_slow_pending_transparent; generated gaps "
     "0.3 / 3.9 / 5.3 / 12.2 / 19.1 s of virtual time on graph and security-locked ECUs, session changes only); from 20 s on the "
@@ -448,9 +456,13 @@ def run_impl(case, dbfile=None):
         td = tempfile.mkdtemp(prefix="verif-c09-", dir="/var/tmp")
         try:
             path = td + "/scan.sqlite"
+            before = []
             for h in case["db_history"]:
-                run_impl({k: v for k, v in h.items() if k != "db_history"}, dbfile=path)
-            return run_impl(case, dbfile=path)
+                o = run_impl({k: v for k, v in h.items() if k != "db_history"}, dbfile=path)
+                before += [(o.get("run_id"), d, st) for d, st in (o.get("stored") or [])]
+            out = run_impl(case, dbfile=path)
+            out["stored_before"] = before
+            return out
         finally:
             shutil.rmtree(td, ignore_errors=True)
     cfg = m["SessionsScannerConfig"].model_construct(
@@ -495,6 +507,8 @@ def run_impl(case, dbfile=None):
             await db.connect()
             await db.insert_run_meta("verif-c09", _MetaCfg(), datetime.now(UTC).astimezone(), None)
             await db.insert_scan_run(DB_TARGET)
+            nonlocal run_id
+            run_id = db.scan_run
             sc.ecu.db_handler = db
             sc.ecu.implicit_logging = False
         try:
@@ -508,6 +522,7 @@ def run_impl(case, dbfile=None):
                 await db.disconnect()
 
     status = "0"
+    run_id = None
     try:
         status, _ = vrun(runner())
     except Stall as e:
@@ -530,7 +545,27 @@ def run_impl(case, dbfile=None):
         "client_session": int(sc.ecu.state.session),
         "ecu_session": tr.cur,
         "db_lookups": getattr(sc.db_handler, "lookups", 0),
+        **({} if dbfile is None else stored_view(dbfile, run_id)),
     }
+
+
+def stored_view(dbfile, run_id):
+    """what the database file holds once the scan has disconnected: the `session_transition` rows of THIS scan run in the
+    order they were inserted, and the number of rows of the other runs (an earlier run's rows must not change)"""
+    import json
+    import sqlite3
+
+    if run_id is None:
+        return {"stored": None, "stored_others": None}
+    con = sqlite3.connect(dbfile)
+    try:
+        mine = [(int(d), [int(x) for x in json.loads(st)]) for d, st in
+                con.execute("SELECT destination, steps FROM session_transition WHERE run = ? ORDER BY rowid", (run_id,))]
+        others = [(int(r), int(d), [int(x) for x in json.loads(st)]) for r, d, st in
+                  con.execute("SELECT run, destination, steps FROM session_transition WHERE run != ? ORDER BY rowid", (run_id,))]
+    finally:
+        con.close()
+    return {"stored": mine, "stored_others": others, "run_id": int(run_id)}
 
 
 def _reqs_view(log, start):
@@ -628,6 +663,14 @@ def spec_line(case, impl):
     return f"spec d={case['depth']} skip={_csv(case['skip'])} hk={int(case['hooks'])} g={_edges_str(case)}{_hook_fields(case)} rep={rep}"
 
 
+def stored_as_report(impl):
+    first = {}
+    for d, st in impl["stored"]:
+        first.setdefault(d, st)
+    rows = [(s, first[s]) for s in impl["result"] if s in first]
+    return {"rows": rows, "result": [s for s, _ in rows]}
+
+
 def parse_model(line):
     kv = dict(w.split("=", 1) for w in line.split(" ") if "=" in w)
 
@@ -677,11 +720,49 @@ def in_class(case):
     return all(e.get(f"{n}>1") == "p" for n in nodes)
 
 
+def judge_stored(case, impl, spec):
+    """scans with a database: the `session_transition` rows of THIS scan run, read back from the sqlite file after the scan
+    has disconnected, must give for every session the run reported a sequence of session changes that really leads there
+    (the property, observed at the stored rows); they must be the rows the scanner handed to the handler, and the rows
+    of earlier runs must be left alone (the tie: Model/SessionDb.lean `insertTransition` appends)"""
+    out = []
+    if impl.get("stored") is None:
+        if "stored" in impl:
+            out.append(("tie:stored-rows:no-run", "the scan run was not created in the database", False))
+        return out
+    n_hist = len(case.get("db_history") or ())
+    hist = "fresh database" if not n_hist else f"database filled by {n_hist} earlier scan(s) of the same target"
+    if impl["exit"] == "0":
+        missing = [s for s in impl["result"] if not any(d == s for d, _ in impl["stored"])]
+        if missing:
+            out.append(("stored-rows:missing",
+                        f"the scan ({hist}) reported {impl['result']} but the session_transition rows of its run "
+                        f"{impl['stored']} have no sequence for {missing}", True))
+        if spec.get("stored_bad"):
+            out.append(("stored-rows:invalid", f"stored sequences of the run ({hist}) that do not lead to their session: "
+                                               f"{spec['stored_bad']}", True))
+    elif impl["stored"] and impl["exit"] == "1":
+        out.append(("stored-rows:after-exit-1", f"exit 1 but the run stored {impl['stored']}", True))
+    if impl["stored"] != impl["rows"]:
+        out.append(("tie:stored-rows", f"rows of the run in the database {impl['stored']}, rows handed to the handler "
+                                       f"{impl['rows']} ({hist})", False))
+    if "stored_before" in impl and impl["stored_others"] != impl["stored_before"]:
+        out.append(("tie:stored-rows:earlier-runs-changed", f"rows of earlier runs before the scan {impl['stored_before']}, "
+                                                            f"afterwards {impl['stored_others']}", False))
+    if model_rows := spec.get("model_stored"):
+        # (the run ids themselves are not compared: the model's `nextRun` looks at the session_transition rows only, sqlite's
+        # scan_run key also counts runs that stored nothing; both are fresh, which is all the theorem needs)
+        if model_rows["mine"] != impl["stored"] or model_rows["others"] != len(impl["stored_others"]):
+            out.append(("tie:stored-rows:model", f"database model: run {model_rows['run']}, rows of the run {model_rows['mine']}, {model_rows['others']} rows "
+                                                 f"of other runs; sqlite file: run {impl['run_id']}, {impl['stored']}, {len(impl['stored_others'])}", False))
+    return out
+
+
 def judge(case, impl, model, spec):
     """-> list of (cls, what, spec_violated)"""
     if "fam" in case:
         return judge_s(case, impl, model, spec)
-    out = []
+    out = judge_stored(case, impl, spec)
     skip = set(case["skip"])
     if model.get("twin"):
         out.append(("tie:scanS-vs-scan", f"the stateful model over the graph oracle differs from the graph model: {model['twin']}", False))
@@ -780,7 +861,7 @@ def request_bound(case):
 
 def judge_s(case, impl, model, spec):
     """stateful ECU families -> list of (cls, what, spec_violated)"""
-    out = []
+    out = judge_stored(case, impl, spec)
     skip = set(case["skip"])
     fam = case["fam"]
     if impl["exit"] in ("stall", "cap"):
@@ -1198,6 +1279,26 @@ def evaluate(ctx, cases, procs=1):
     impls = run_impl_many(cases, procs)
     models = [parse_model(l) for l in ctx.lean([scans_line(c) if "fam" in c else scan_line(c) for c in cases])]
     specs = [parse_spec(l) for l in ctx.lean([spec_line(eff_case(c), i) for c, i in zip(cases, impls)])]
+    # scans with a database: the specification evaluated on the rows read back from the sqlite file (first row of the run per
+    # reported session)
+    dbk = [k for k, i in enumerate(impls) if i.get("stored") is not None]
+    for k, l in zip(dbk, ctx.lean([spec_line(eff_case(cases[k]), stored_as_report(impls[k])) for k in dbk])):
+        specs[k]["stored_bad"] = parse_spec(l)["bad"]
+    # ... and the database model (Model/SessionDb.lean): the scans of the history and this scan run into one table, the rows
+    # of the last run read back
+    dbg = [k for k in dbk if "fam" not in cases[k] and "vecu" not in cases[k]]
+    lines, last = [], []
+    for k in dbg:
+        lines.append("dbreset")
+        for h in list(cases[k].get("db_history") or ()) + [cases[k]]:
+            lines.append("db" + scan_line(h))
+        last.append(len(lines) - 1)
+    outs = ctx.lean(lines) if lines else []
+    for k, n in zip(dbg, last):
+        kv = dict(w.split("=", 1) for w in outs[n].split(" ") if "=" in w)
+        mine = [] if kv["mine"] == "-" else [(int(e.split("@")[0]), [int(x) for x in e.split("@")[1].split(".")] if e.split("@")[1] != "-" else [])
+                                             for e in kv["mine"].split(";")]
+        specs[k]["model_stored"] = {"mine": mine, "others": int(kv["others"]), "run": int(kv["run"])}
     # the graph ECU as a stateful oracle: `scanS` over `graphOracle` must be `scan` (scan_simulates_graph), line by line
     twin = [k for k, c in enumerate(cases) if "fam" not in c and not c.get("start")]
     for k, l in zip(twin, ctx.lean([scans_line(cases[k]) for k in twin])):
@@ -1271,7 +1372,8 @@ def case_key(case):
     hist = ""
     if case.get("db_history") is not None:
         hist = ";db=" + ("fresh" if not case["db_history"] else "|".join(
-            f"d{h['depth']},skip={_csv(h['skip'])},th={int(h['thorough'])},hk={int(h['hooks'])}" for h in case["db_history"]))
+            f"d{h['depth']},skip={_csv(h['skip'])},th={int(h['thorough'])},hk={int(h['hooks'])}"
+            + ("" if h["g"] == case["g"] else ",g=" + _edges_str(h)) for h in case["db_history"]))
     return (f"d={case['depth']};skip={_csv(case['skip'])};th={int(case['thorough'])};rs={case['reset']};"
             f"hk={int(case['hooks'])};mr={case['max_retry']};rst={case['rst']};g={_edges_str(case)}"
             + _hook_fields(case).replace(" ", ";") + hist
@@ -1279,30 +1381,47 @@ def case_key(case):
 
 
 def db_sequence(rng):
-    """the same ECU scanned two or three times into one database with different depth / skip / thorough: every scan is a
-    case of its own whose `db_history` lists the scans that filled the database before it"""
-    shape = rng.choice(["chain", "chain", "deep-only", "density", "islands"])
+    """the same target scanned two or three times into one database with different depth / skip / thorough - deep first,
+    shallow first (a session only identified by the first run is entered by a later one) or any order - and sometimes an
+    ECU whose behaviour has changed between the runs (software update, another variant behind the same address): every scan
+    is a case of its own whose `db_history` lists the scans that filled the database before it"""
+    shape = rng.choice(["chain", "chain", "deep-only", "deep-only", "density", "islands"])
     g, ids = rand_graph(rng, shape)
     g = decorate(rng, g, ids, True)
+    if rng.random() < 0.5:   # guarded entries: refused from one session (conditionsNotCorrect, securityAccessDenied ..), open from another
+        for b in rng.sample(ids[1:], min(len(ids) - 1, rng.randint(1, 2))):
+            a = rng.choice([x for x in ids if x != b])
+            if g.get((a, b)) != "p" or rng.random() < 0.5:
+                g[(a, b)] = rng.choice(["n34", "n34", "n51", "n49"])
     gh, pre, post = None, (), ()
     if rng.random() < 0.25:
         g, gh, pre, post = hook_class(rng, g, ids)
-    common = dict(max_retry=rng.choice([0, 0, 1]), rst="p", gh=gh, pre=pre, post=post)
-    scans = [mk_case(g, rng.choice([3, 4, 5]), [], hooks=bool(pre) or rng.random() < 0.2, **common)]
-    for _ in range(rng.randint(1, 2)):
-        kind = rng.random()
-        depth = rng.choice([1, 1, 2, 2, 3])
+    common = dict(max_retry=rng.choice([0, 0, 1]), rst="p", pre=pre, post=post)
+    order = rng.choice(["deep-first", "shallow-first", "shallow-first", "any"])
+    n = rng.randint(2, 3)
+    depths = sorted(rng.sample([1, 2, 3, 4, 5], n)) if order != "any" else [rng.choice([1, 2, 3, 4]) for _ in range(n)]
+    if order == "deep-first":
+        depths.reverse()
+    scans = []
+    for i, depth in enumerate(depths):
+        if i and rng.random() < 0.3:   # the ECU behaves differently from now on
+            g = dict(g)
+            for _ in range(rng.randint(1, 2)):
+                a, b = rng.choice(ids), rng.choice(ids[1:])
+                g[(a, b)] = rng.choice(["p", "n34", "n18", "n126"]) if g.get((a, b)) != "p" else rng.choice(["n34", "n18"])
+            if gh is not None:
+                gh = {**g, **{k: v for k, v in gh.items() if g.get(k) == "n34"}}
         skip = []
-        if kind < 0.5 and len(ids) > 2:
+        if i and rng.random() < 0.35 and len(ids) > 2:
             skip = rng.sample(ids[1:], rng.randint(1, min(2, len(ids) - 1)))
-        scans.append(mk_case(g, depth, skip, thorough=rng.random() < 0.2, hooks=rng.random() < 0.3,
-                             reset=rng.choice([None, None, 1]), **common))
+        scans.append(mk_case(g, depth, skip, thorough=rng.random() < 0.2, hooks=bool(pre) and i == 0 or rng.random() < 0.25,
+                             reset=rng.choice([None, None, None, 1]) if i else None, gh=gh, **common))
     out = []
     for i, c in enumerate(scans):
         if c["thorough"] and n_walks(c, 40) > 40:
             c["thorough"] = False
         out.append({**c, "db_history": [dict(h) for h in scans[:i]]})
-    return out, "db:" + shape
+    return out, f"db:{order}:{shape}"
 
 
 GENERIC = ("skipped-session-requested:default-session:stack-recovery",)
@@ -1511,7 +1630,16 @@ MANIFEST = {
                    "dependence of the scan on it is a disagreement); session changes announced with ResponsePending complete 0.3 .. 19.1 s "
                    "(virtual time) later with the default client timeout and max_retry 0..3 (Model: withSlowPending; "
                    "scan_slow_pending_transparent: below the 20 s of the pending loop the scan is the scan of the ECU that answers at "
-                   "once; slow_pending_lost_at_giveup: at 20 s the transmission is lost)."),
+                   "once; slow_pending_lost_at_giveup: at 20 s the transmission is lost). "
+                   "Scans with a database: the session_transition table is modelled (Model/SessionDb.lean: rows (run, destination, "
+                   "steps), insert appends, fresh run ids); stored_transitions_are_reported_stacks: whatever earlier runs left in the "
+                   "table, the rows of a run under a fresh id are exactly its reported stacks, other runs' rows are untouched and every "
+                   "reported session has a row of this run whose sequence is a valid path of at most `depth` changes; next_run_is_fresh. "
+                   "Tied by running the real scanner with the real DBHandler on a sqlite file - one scan, and two or three consecutive "
+                   "scans of the same target (deep first / shallow first / any order, other skip / thorough / hooks / reset, sometimes a "
+                   "changed ECU graph) into the same file - and reading the rows of each run back from the file: every reported session "
+                   "must have a stored sequence of that run that leads there (specification evaluated on the stored rows), the stored "
+                   "rows must be the rows handed to the handler and the rows of the database model, earlier runs' rows must not change."),
     "level_note": ("Trusted: Lean kernel (axioms propext, Quot.sound, Classical.choice), the harness and its graph ECU, the "
                    "virtual-time loop. The ECU class is a deterministic session graph (answers depend on the current "
                    "session and on whether the session hook preceded the request); responsePending handling belongs to C04; OEM "
